@@ -331,6 +331,12 @@ pdgstrf_MemInit(int_t n, int_t annz, superlumt_options_t *superlumt_options,
 	    xusub      = (int_t *)duser_malloc((n+1) * iword, HEAD);
 	    xusub_end  = (int_t *)duser_malloc((n) * iword, HEAD);
 	}
+	if ( !xsup || !xsup_end || !supno || !xlsub || !xlsub_end ||
+	     !xlusup || !xlusup_end || !xusub || !xusub_end ) {
+	    /* work[] cannot even hold the column pointers */
+	    printf("Not enough memory to perform factorization.\n");
+	    return (pdgstrf_memory_use(nzlmax, nzumax, nzlumax) + n);
+	}
 
 	lusup = (double *) pdgstrf_expand( &nzlumax, LUSUP, 0, 0, Glu );
 	ucol  = (double *) pdgstrf_expand( &nzumax, UCOL, 0, 0, Glu );
@@ -347,7 +353,9 @@ pdgstrf_MemInit(int_t n, int_t annz, superlumt_options_t *superlumt_options,
 		SUPERLU_FREE(lsub);
 		SUPERLU_FREE(usub);
 	    } else {
-		duser_free(nzumax*dword+(nzlmax+nzumax)*iword, HEAD);
+		/* hand back what was granted, and only that */
+		duser_free((ucol ? nzumax*dword : 0) + (lsub ? nzlmax*iword : 0)
+			   + (usub ? nzumax*iword : 0), HEAD);
 	    }
 	    nzumax /= 2;    /* reduce request */
 	    nzlmax /= 2;
